@@ -40,6 +40,7 @@ N = dict(
     sf_copy_assign='^' + SF_RX + r'::operator=\(' + SF_RX + r' const&\)$',
     sf_dtor='^' + SF_RX + r'::~shared_future\(\)$',
     fut_wait=r'^cocls::future<int>::wait\(\)$',
+    spbool_dtor=r'^cocls::suspend_point<bool>::~suspend_point\(\)$',
 )
 BOUNDARY = [r'^std::__shared_count<', r'^std::__shared_ptr_access<.*>::operator(->|\*)\(\) const$', N['aw_subscribe'], N['promise_dtor']]
 LIBS = ['rt_core.c', 'rt_atomic_seq.c', 'model_sharedptr_cb.c']
@@ -54,7 +55,7 @@ def unit(name, alias, uses=(), extra_types=None, extra_roots=(), extra_boundary=
     g = dict(GLOBALS); g.update(extra_globals or {})
     d = dict(name=name, driver='c17_shared_future.cpp', roots=[N[alias], N['fi_dtor']] + list(extra_roots), names=names, types=t, globals=g,
              boundary=BOUNDARY + list(extra_boundary), lib=LIBS, defines=list(DEFINES), spec=['C17/sf_spec.h', 'C17/h_sf.c'], harness='h_' + name,
-             enforce=alias, unwind=3, unwind_is_invariant=False, under_contract=[N[alias].strip('^$').replace('\\', '')])
+             enforce=alias, unwind=3, cbmc_flags=['--sat-solver', 'cadical'], solver='sat(cadical, cbmc --sat-solver cadical)', under_contract=[N[alias].strip('^$').replace('\\', '')])
     d.update(kw)
     return d
 
@@ -67,12 +68,14 @@ UNITS = [
     unit('copy_assign', 'sf_copy_assign'),
     unit('ctor_promise', 'sf_ctor_pfn', uses=('tr_invoke', 'aw_subscribe', 'sp_arrow', 'sp_make_pfn', 'fi_ctor_pfn', 'promise_dtor', 'env_promise_fn'),
          extra_types=dict(ACCESS_T, PFN='c17_promise_fn', **MAKE_T), extra_roots=[N['fi_ctor_pfn']]),
-    unit('ctor_future', 'sf_ctor_ffn', uses=('tr_invoke', 'aw_subscribe', 'sp_arrow', 'sp_make_default', 'fi_ctor_default', 'env_future_fn', 'promise_set_exc'),
+    unit('ctor_future', 'sf_ctor_ffn', uses=('tr_invoke', 'aw_subscribe', 'sp_arrow', 'sp_make_default', 'fi_ctor_default', 'env_future_fn', 'promise_set_exc', 'spbool_dtor'),
          extra_types=dict(ACCESS_T, FFN='c17_future_fn', SPBOOL='cocls::suspend_point<bool>', EXCPTR='std::__exception_ptr::exception_ptr', **MAKE_T),
-         extra_roots=[N['fi_ctor_default']], extra_boundary=[N['promise_set_exc']]),
+         extra_roots=[N['fi_ctor_default']], extra_boundary=[N['promise_set_exc'], N['spbool_dtor']]),
     unit('init_if_needed', 'sf_init_if_needed', uses=('sp_make_default', 'fi_ctor_default'), extra_types=MAKE_T, extra_roots=[N['fi_ctor_default']]),
-    unit('get_promise', 'sf_get_promise', uses=('tr_invoke', 'aw_subscribe', 'sp_arrow', 'sp_make_default', 'fi_ctor_default', 'promise_dtor'),
-         extra_types=dict(ACCESS_T, **MAKE_T), extra_roots=[N['fi_ctor_default']]),
+    unit('get_promise_default', 'sf_get_promise', uses=('tr_invoke', 'aw_subscribe', 'sp_arrow', 'sp_make_default', 'fi_ctor_default', 'promise_dtor'),
+         extra_types=dict(ACCESS_T, **MAKE_T), extra_roots=[N['fi_ctor_default']], harness='h_get_promise', defines=DEFINES + ['GP_CASE_PRE(h) (H_CB(h) == 0)']),
+    unit('get_promise_initialised', 'sf_get_promise', uses=('tr_invoke', 'aw_subscribe', 'sp_arrow', 'sp_make_default', 'fi_ctor_default', 'promise_dtor'),
+         extra_types=dict(ACCESS_T, **MAKE_T), extra_roots=[N['fi_ctor_default']], harness='h_get_promise', defines=DEFINES + ['GP_CASE_PRE(h) (H_CB(h) != 0)']),
     unit('ready', 'sf_ready', uses=('sp_arrow',), extra_types=ACCESS_T),
     unit('value', 'sf_value', uses=('sp_arrow',), extra_types=ACCESS_T,
          extra_globals={'TI_NOT_READY': '_ZTIN5cocls25value_not_ready_exceptionE', 'TI_CANCELED': '_ZTIN5cocls24await_canceled_exceptionE'}),
